@@ -118,7 +118,12 @@ class McNoiseMap:
             mapping[reg_type][gate_name].append(noise_tuple)
         else:
             mapping[reg_type][gate_name] = [noise_tuple]
-            self.mapping = mapping
+            try:
+                self.mapping = mapping
+            except AssertionError:
+                # a refused tuple must not stay in the map
+                del mapping[reg_type][gate_name]
+                raise
             return
         # check if the noise already existed for the certain gate indicated
         # exist_noises = [type(x[0]) for x in mapping[reg_type][gate_name]]
@@ -132,7 +137,12 @@ class McNoiseMap:
         # else:
         #     raise ValueError("duplicate noise model for a gate, if it is intentional, merge them into a single one by "
         #                      "adding probabilities")
-        self.mapping = mapping
+        try:
+            self.mapping = mapping
+        except AssertionError:
+            # a refused tuple must not stay in the map
+            mapping[reg_type][gate_name].pop()
+            raise
 
     def total_noise_prob(self, reg_type, gate_name):
         """
